@@ -42,6 +42,7 @@ Subs(op, mode) ==
     [] op = "dot" /\ mode = <<1, 4>> -> <<<<"i">>, <<"i", "j", "k", "l">>, <<"j", "k", "l">>>>
     [] op = "dot" /\ mode = <<2, 4>> -> <<<<"i", "m">>, <<"m", "j", "k", "l">>, <<"i", "j", "k", "l">>>>
     [] op = "dot" /\ mode = <<4, 2>> -> <<<<"i", "j", "k", "m">>, <<"m", "l">>, <<"i", "j", "k", "l">>>>
+    [] op = "dot" /\ mode = <<4, 4>> -> <<<<"i", "j", "k", "p">>, <<"p", "l", "m", "n">>, <<"i", "j", "k", "l", "m", "n">>>>
     [] op = "ddot" /\ mode = <<2, 2>> -> <<<<"i", "j">>, <<"i", "j">>, <<>>>>
     [] op = "ddot" /\ mode = <<2, 4>> -> <<<<"i", "j">>, <<"i", "j", "k", "l">>, <<"k", "l">>>>
     [] op = "ddot" /\ mode = <<4, 2>> -> <<<<"i", "j", "k", "l">>, <<"k", "l">>, <<"i", "j">>>>
@@ -143,17 +144,36 @@ SethHill(r) == \A n \in 1..Len(r.stretch) :
 Linsteps(r) == /\ Len(r.out) = (Len(r.points) - 1) * r.num + 1
                /\ \A s \in 1..(Len(r.points) - 1) : \A n \in 0..r.num :
                      r.out[(s - 1) * r.num + n + 1] * r.num = r.S * (r.points[s] * (r.num - n) + r.points[s + 1] * n)
+\* ... without the end point: num steps per segment; with axis / axes / values: a table whose column `axis` holds the sequence
+\* and whose other columns hold the constant row `values`
+LinstepsOpen(r) == /\ Len(r.out) = (Len(r.points) - 1) * r.num
+                   /\ \A s \in 1..(Len(r.points) - 1) : \A n \in 0..(r.num - 1) :
+                         r.out[(s - 1) * r.num + n + 1] * r.num = r.S * (r.points[s] * (r.num - n) + r.points[s + 1] * n)
+LinstepsTable(r) == LET rows == Len(r.seq) IN
+                    /\ Len(r.out) = rows * r.axes
+                    /\ \A i \in 1..rows : \A c \in 1..r.axes :
+                          r.out[(i - 1) * r.axes + c] = IF c = r.axis + 1 THEN r.seq[i] ELSE r.S * r.values[c]
+\* eigenvalues with principal shear values: the d eigenvalues followed by their differences (1,0), (2,0), (2,1)
+PrincipalShear(r) == LET ij == IF r.d = 3 THEN << <<1, 0>>, <<2, 0>>, <<2, 1>> >> ELSE << <<1, 0>> >>
+                         V(k, b) == r.out[k * r.nbo + b + 1] IN
+                     /\ Len(r.out) = (r.d + Len(ij)) * r.nbo
+                     /\ \A b \in 0..(r.nbo - 1) :
+                           /\ \A k \in 0..(r.d - 1) : V(k, b) = r.val[k * r.nbo + b + 1]
+                           /\ \A n \in 1..Len(ij) : V(r.d + n - 1, b) = r.val[ij[n][1] * r.nbo + b + 1] - r.val[ij[n][2] * r.nbo + b + 1]
 
 Clauses(r) == CASE r.kind = "def" -> {"Definition"} [] r.kind = "solve" -> {"SolveResidual"} [] r.kind = "inv" -> {"InverseIdentity"}
                 [] r.kind = "same" -> {"SameAsPlain", "InputsUnchanged"}
                 [] r.kind = "rotation" -> {"RotationOrthogonal", "RotationAxisFixed", "RotationAngle"}
                 [] r.kind = "eig" -> IF r.symmetric THEN {"EigenPairs", "EigenAscending"} ELSE {"EigenPairs"}
                 [] r.kind = "sethhill" -> {"SethHill"} [] r.kind = "linsteps" -> {"Linsteps"}
+                [] r.kind = "linstepsopen" -> {"LinstepsOpen"} [] r.kind = "linstepstable" -> {"LinstepsTable"}
+                [] r.kind = "eigshear" -> {"PrincipalShear"}
 Holds(c, r) == CASE c = "Definition" -> Definition(r) [] c = "SolveResidual" -> SolveResidual(r) [] c = "InverseIdentity" -> InverseIdentity(r)
                  [] c = "SameAsPlain" -> SameAsPlain(r) [] c = "InputsUnchanged" -> InputsUnchanged(r)
                  [] c = "RotationOrthogonal" -> RotationOrthogonal(r) [] c = "RotationAxisFixed" -> RotationAxisFixed(r)
                  [] c = "RotationAngle" -> RotationAngle(r) [] c = "EigenPairs" -> EigenPairs(r) [] c = "EigenAscending" -> EigenAscending(r)
                  [] c = "SethHill" -> SethHill(r) [] c = "Linsteps" -> Linsteps(r)
+                 [] c = "LinstepsOpen" -> LinstepsOpen(r) [] c = "LinstepsTable" -> LinstepsTable(r) [] c = "PrincipalShear" -> PrincipalShear(r)
 Applicable(r) == Clauses(r)
 Failing(r) == {c \in Clauses(r) : ~Holds(c, r)}
 
